@@ -19,11 +19,7 @@ impl std::io::Write for Sink {
         Ok(b.len())
     }
     fn write_all(&mut self, b: &[u8]) -> std::io::Result<()> {
-        let mut i = 0;
-        while i < b.len() {
-            self.buf[self.n + i] = b[i];
-            i += 1;
-        }
+        self.buf[self.n..self.n + b.len()].copy_from_slice(b); // memcpy: no loop to unwind
         self.n += b.len();
         Ok(())
     }
@@ -77,10 +73,10 @@ hex_instance!(c17_json_hex_binary_64_bytes, 64);
 hex_instance!(c17_json_hex_binary_65_bytes, 65);
 hex_instance!(c17_json_hex_binary_66_bytes, 66);
 
-//@ tier: quick
-//@ timeout: 600
+//@ tier: thorough
+//@ timeout: 2400
 //@ functions: arrow_json::reader::binary_array::{decode_hex_to_writer, decode_hex_digit}
-//@ bound: hex text of a 66-byte value whose first 60 bytes are a fixed pattern (byte i = 7*i+1) and whose last 6 bytes (positions 60..=65, i.e. the bytes just before and after the 64-byte staging buffer fills) are arbitrary: decoded length 66 and bytes 60..=65 exact; the fully symbolic 64/65/66-byte instances are in the thorough tier (~870 s each); unwind 70
+//@ bound: hex text of a 66-byte value whose first 60 bytes are a fixed pattern (byte i = 7*i+1) and whose last 6 bytes (positions 60..=65, i.e. the bytes just before and after the 64-byte staging buffer fills) are arbitrary: decoded length 66 and bytes 60..=65 exact; (symbolic execution of the 66 loop iterations alone takes ~600 s, so this sits in the thorough tier with the fully symbolic 64/65/66-byte instances); unwind 70
 //@ stub: alloc::fmt::format -> empty String; writer = fixed array with infallible write_all
 #[kani::proof]
 #[kani::unwind(70)]
@@ -108,4 +104,16 @@ fn c17_json_hex_binary_buffer_edge() {
     assert!(sink.buf[k] == want, "bytes around the staging-buffer edge survive");
     kani::cover!(k == 64);
     kani::cover!(k == 65);
+}
+
+//@ tier: quick
+//@ timeout: 600
+//@ functions: arrow_json::reader::binary_array::{decode_hex_to_writer, decode_hex_digit}
+//@ bound: the lower-case hex text of every 5-byte value: decoded length 5 and every byte exact (the staging-buffer boundary at 64 bytes is the thorough tier's subject); unwind 70
+//@ stub: alloc::fmt::format -> empty String; writer = fixed array with infallible write_all
+#[kani::proof]
+#[kani::unwind(70)]
+#[kani::stub(alloc::fmt::format, stub_format)]
+fn c17_json_hex_binary_short_value() {
+    hex_roundtrip::<5>();
 }
